@@ -92,14 +92,24 @@ class Walker:
                 return None
             r = _cmp(i["pred"], a, b, _width(i["opty"]) if i["opty"].startswith("i") else 64)
             return None if r is None else int(r)
-        if op in ("xor", "and", "or", "add", "sub"):
+        if op in ("xor", "and", "or", "add", "sub", "mul", "urem", "srem", "udiv", "sdiv", "shl", "lshr", "ashr"):
             a = self.ev(i["a"], facts, pred, depth + 1)
             b = self.ev(i["b"], facts, pred, depth + 1)
             if op == "and" and (a == 0 or b == 0):
                 return 0
             if a is None or b is None:
                 return None
-            return {"xor": a ^ b, "and": a & b, "or": a | b, "add": a + b, "sub": a - b}[op]
+            w_ = _width(i["ty"])
+            if op in ("urem", "udiv", "lshr"):
+                a &= (1 << w_) - 1
+                b &= (1 << w_) - 1
+            if op in ("urem", "srem", "udiv", "sdiv") and b == 0:
+                return None
+            if op in ("srem", "sdiv"):
+                q = abs(a) // abs(b) * (1 if (a >= 0) == (b >= 0) else -1)
+                return q if op == "sdiv" else a - q * b
+            return {"xor": a ^ b, "and": a & b, "or": a | b, "add": a + b, "sub": a - b, "mul": a * b, "urem": a % b if b else 0,
+                    "udiv": a // b if b else 0, "shl": a << (b & 63), "lshr": a >> (b & 63), "ashr": a >> (b & 63)}[op]
         if op == "phi" and pred is not None and i.bb.id == self._cur_bb:
             for b, v in i["incoming"]:
                 if b == pred:
